@@ -343,10 +343,29 @@ fn run_case(c: &Case, p1: &mut Processor<G1>, p2: &mut Processor<G2>) -> Result<
     }
 }
 
-fn fresh_run(c: &Case) -> Option<String> {
+/// Run `c` on fresh processors that have first processed `hist` (results of the history ignored):
+/// the property quantifies over repeated process calls on the same processor, so a violation may
+/// need what the processor did before.
+fn run_with_history(hist: &[Case], c: &Case) -> Option<String> {
     let mut p1 = Processor::<G1>::with_capacity(8);
     let mut p2 = Processor::<G2>::with_capacity(8);
+    for h in hist {
+        let _ = catch(|| run_case(h, &mut p1, &mut p2));
+    }
     run_case(c, &mut p1, &mut p2).err().map(|e| e.1)
+}
+
+/// the shortest suffix of the processor's history (lengths 0, 1, 2, 4, ...) with which the
+/// violation reproduces on fresh processors
+fn minimal_history(hist: &[Case], c: &Case) -> Vec<Case> {
+    let mut k = 0usize;
+    loop {
+        let suffix = &hist[hist.len() - k.min(hist.len())..];
+        if run_with_history(suffix, c).is_some() || k >= hist.len() {
+            return suffix.to_vec();
+        }
+        k = if k == 0 { 1 } else { k * 2 };
+    }
 }
 
 fn main() {
@@ -357,11 +376,10 @@ fn main() {
             std::process::exit(2)
         });
         guard::enter(&v.to_string());
-        let mut p1 = Processor::<G1>::with_capacity(8);
-        let mut p2 = Processor::<G2>::with_capacity(8);
-        ctx.finish_replay(run_case(&c, &mut p1, &mut p2).err().map(|e| format!("{}: {}", e.0, e.1)));
+        let hist: Vec<Case> = v["history"].as_array().map(|a| a.iter().filter_map(Case::from_json).collect()).unwrap_or_default();
+        ctx.finish_replay(run_with_history(&hist, &c));
     }
-    ctx.rule("every directed multigraph on n<=3 nodes with multiplicity 0..2 per ordered pair (self pairs included), every digraph with loops on 4 nodes (thorough: every loop-free digraph on 5 nodes) x every output node x container in {Graph, StableGraph, StableGraph with vacancies before/between/after/all (dummy nodes wired in and removed)} x 2 consecutive process calls on a processor reused across the whole enumeration; instrumented nodes log (node, call, own buffer ptr, per input ptr/len/value/call#); oracle: independent reverse reachability, multiset of in-edges by buffer identity, no self-alias, topological order and functional evaluation when the upstream subgraph is acyclic, sources()/sinks() == existing nodes without in/out edges; non-trivial = at least one edge, distinct by (graph, output, container)");
+    ctx.rule("every directed multigraph on n<=3 nodes with multiplicity 0..2 per ordered pair (self pairs included), every digraph with loops on 4 nodes (thorough: every loop-free digraph on 5 nodes) x every output node x container in {Graph, StableGraph, StableGraph with vacancies before/between/after/all (dummy nodes wired in and removed)} x 2 consecutive process calls on a processor reused across a whole chunk of the enumeration (256 graphs x outputs x containers; a violation's replay artefact carries the shortest suffix of that history with which it reproduces on a fresh processor); instrumented nodes log (node, call, own buffer ptr, per input ptr/len/value/call#); oracle: independent reverse reachability, multiset of in-edges by buffer identity, no self-alias, topological order and functional evaluation when the upstream subgraph is acyclic, sources()/sinks() == existing nodes without in/out edges; non-trivial = at least one edge, distinct by (graph, output, container)");
     // enumerate
     let mut graphs: Vec<(usize, Vec<u8>)> = Vec::new();
     for n in 1..=3usize {
@@ -402,6 +420,7 @@ fn main() {
         let mut p1 = Processor::<G1>::with_capacity(8);
         let mut p2 = Processor::<G2>::with_capacity(8);
         let mut fps = Vec::new();
+        let mut hist: Vec<Case> = Vec::new(); // what this chunk's processors have processed so far
         for (n, m) in chunk {
             let nv = 2 + vacancy_patterns(*n).len() as u8;
             for out in 0..*n {
@@ -417,8 +436,15 @@ fn main() {
                                 fps.push(common::fnv_str(&cj.to_string()));
                             }
                         }
-                        Err((k, msg)) => ctx.violation(&k, cj, msg, Some(&|| fresh_run(&c))),
+                        Err((k, msg)) => {
+                            let h = minimal_history(&hist, &c);
+                            let mut cj = cj;
+                            cj["history"] = json!(h.iter().map(|x| x.to_json()).collect::<Vec<_>>());
+                            // the replay's wording may differ (call numbers); only reproduction matters
+                            ctx.violation(&k, cj, msg.clone(), Some(&|| run_with_history(&h, &c).map(|_| msg.clone())));
+                        }
                     }
+                    hist.push(c);
                 }
             }
         }
